@@ -323,7 +323,7 @@ class Check:
         if e is not None and found_input:
             self.known_hits[e["id"]] = self.known_hits.get(e["id"], 0) + 1
             return
-        if len(self.violations) >= 5:
+        if len(self.violations) >= 40:
             self.violations.append({"signature": signature, "replay": None, "found_input": found_input})
             return
         REPLAYS.mkdir(exist_ok=True)
@@ -385,6 +385,8 @@ class Check:
             else:
                 print(f"note: known finding {e['id']} for {self.prop} did not reproduce in this run")
         if self.violations:
+            for v in self.violations:
+                print(f"  failing class: {v['signature']}")
             for v in self.violations[:5]:
                 tail = "" if v["found_input"] else " no-failing-input-found"
                 print(f"VIOLATION property={self.prop} replay={v['replay']}{tail}")
